@@ -18,10 +18,11 @@ Definition run_linux (lsbdata status cpuinfo : bytes) : (list bytes * bytes) * (
    [written] (INIT line first, then the delta lines; constants or failing expressions), the HashMap iterated in reverse:
    (value if valid) for each name of [observe] *)
 From RM Require Import C13.Cfi.
-Definition run_cfi_rules (written : list (bytes * option Z)) (callee : list (bytes * Z)) (observe : list bytes) : list (option Z) :=
+Definition run_cfi_rules (arm : bool) (written : list (bytes * option Z)) (callee : list (bytes * Z)) (observe : list bytes) : list (option Z) :=
+  let t := if arm then arm_tables else a64_tables in
   let cal := fun x => match find (fun e : bytes * Z => bytes_eqb x (fst e)) callee with Some e => snd e | None => 0 end in
-  let regs := a64_walk (@rev _) written cal in
-  map (fun n => match a64_memoize n with Some r => regs r | None => None end) observe.
+  let regs := arch_walk t (@rev _) written cal in
+  map (fun n => match arch_memoize t n with Some r => regs r | None => None end) observe.
 
 (* A cases: adaptive walks on the real Symbolizer under an explicit poll schedule (then round-robin rounds until every walk is
    over): per task its result and its answer log, the supplier's call log, the stats entry of every key, the counters *)
